@@ -14,10 +14,12 @@ pub mod c09;
 pub mod c10;
 pub mod c11;
 pub mod c12;
+pub mod c14;
 pub mod c15;
 pub mod c16;
 pub mod c17;
 pub mod c18;
+pub mod c19;
 pub mod c20;
 
 pub struct PropDef {
@@ -40,10 +42,12 @@ pub fn all() -> Vec<PropDef> {
         PropDef { id: "C10", level: "exploration", run: c10::run, replay: c10::replay },
         PropDef { id: "C11", level: "exploration", run: c11::run, replay: c11::replay },
         PropDef { id: "C12", level: "exploration", run: c12::run, replay: c12::replay },
+        PropDef { id: "C14", level: "exploration", run: c14::run, replay: c14::replay },
         PropDef { id: "C15", level: "exploration", run: c15::run, replay: c15::replay },
         PropDef { id: "C16", level: "exploration", run: c16::run, replay: c16::replay },
         PropDef { id: "C17", level: "fault_enumeration", run: c17::run, replay: c17::replay },
         PropDef { id: "C18", level: "exploration", run: c18::run, replay: c18::replay },
+        PropDef { id: "C19", level: "exploration", run: c19::run, replay: c19::replay },
         PropDef { id: "C20", level: "exploration", run: c20::run, replay: c20::replay },
     ]
 }
